@@ -217,6 +217,10 @@ StringDictionaryHASHUFFDAC::StringDictionaryHASHUFFDAC(IteratorDictString *it,
   hash->finish(bytesStrings);
 
   delete builder;
+
+  // The coder also needs the table for decoding purposes
+  delete coder;
+  coder = new StatCoder(table, codewords);
 }
 
 unsigned long StringDictionaryHASHUFFDAC::locate(uchar *str, uint strLen) {
